@@ -100,6 +100,15 @@ func pick[T any](r *rand.Rand, xs []T) T { return xs[r.Intn(len(xs))] }
 
 func (g *Gen) chance(p float64) bool { return g.R.Float64() < p }
 
+// num draws a number below n, with an explicit zero in about one case out of seven:
+// a leaf that is SET to zero is different from an unset leaf and must survive as such.
+func (g *Gen) num(n int) uint64 {
+	if g.R.Intn(7) == 0 {
+		return 0
+	}
+	return uint64(g.R.Intn(n))
+}
+
 var v4addrs = []string{"192.0.2.1", "198.51.100.7", "203.0.113.255", "10.1.2.3"}
 var v6addrs = []string{"2001:db8::1", "2001:db8:0:1::2", "fe80::1", "::1"}
 var macs = []string{"00:11:22:33:44:55", "AA:BB:CC:DD:EE:FF", "02:00:5e:10:00:01"}
@@ -150,7 +159,7 @@ func (g *Gen) NHPayload() *aftpb.Afts_NextHop {
 	if g.chance(pr) {
 		p.InterfaceRef = &aftpb.Afts_NextHop_InterfaceRef{Interface: S(pick(g.R, ifnames))}
 		if g.chance(0.5) {
-			p.InterfaceRef.Subinterface = U(uint64(g.R.Intn(4096)))
+			p.InterfaceRef.Subinterface = U(g.num(4096))
 		}
 	}
 	if g.chance(pr) {
@@ -194,14 +203,14 @@ func (g *Gen) NHPayload() *aftpb.Afts_NextHop {
 			p.Gre.DstIp = S(g.ip())
 		}
 		if g.chance(0.5) {
-			p.Gre.Ttl = U(uint64(g.R.Intn(256)))
+			p.Gre.Ttl = U(g.num(256))
 		}
 	}
 	if g.chance(pr) {
 		p.TunnelSrcIpAddress = S(g.ip())
 	}
 	if g.chance(pr) {
-		p.VniLabel = U(uint64(g.R.Intn(1 << 24)))
+		p.VniLabel = U(1 + uint64(g.R.Intn(1<<24-1))) // 0 is outside the schema range
 	}
 	if g.chance(pr) {
 		n := 1 + g.R.Intn(3)
@@ -221,13 +230,13 @@ func (g *Gen) NHPayload() *aftpb.Afts_NextHop {
 					eh.Mpls.MplsLabelStack = append(eh.Mpls.MplsLabelStack, &aftpb.Afts_NextHop_EncapHeader_Mpls_MplsLabelStackUnion{MplsLabelStackUint64: g.label()})
 				}
 				if g.chance(0.4) {
-					eh.Mpls.TrafficClass = U(uint64(g.R.Intn(8)))
+					eh.Mpls.TrafficClass = U(g.num(8))
 				}
 			case 1:
 				eh.Type = enums.OpenconfigAftTypesEncapsulationHeaderType_OPENCONFIGAFTTYPESENCAPSULATIONHEADERTYPE_UDPV6
 				eh.UdpV6 = &aftpb.Afts_NextHop_EncapHeader_UdpV6{}
 				if g.chance(0.6) {
-					eh.UdpV6.Dscp = U(uint64(g.R.Intn(64)))
+					eh.UdpV6.Dscp = U(g.num(64))
 				}
 				if g.chance(0.6) {
 					eh.UdpV6.DstIp = S(pick(g.R, v6addrs))
@@ -236,25 +245,25 @@ func (g *Gen) NHPayload() *aftpb.Afts_NextHop {
 					eh.UdpV6.SrcIp = S(pick(g.R, v6addrs))
 				}
 				if g.chance(0.6) {
-					eh.UdpV6.DstUdpPort = U(uint64(g.R.Intn(65536)))
+					eh.UdpV6.DstUdpPort = U(g.num(65536))
 				}
 				if g.chance(0.6) {
-					eh.UdpV6.SrcUdpPort = U(uint64(g.R.Intn(65536)))
+					eh.UdpV6.SrcUdpPort = U(g.num(65536))
 				}
 				if g.chance(0.6) {
-					eh.UdpV6.IpTtl = U(uint64(g.R.Intn(256)))
+					eh.UdpV6.IpTtl = U(g.num(256))
 				}
 			case 2:
 				eh.Type = enums.OpenconfigAftTypesEncapsulationHeaderType_OPENCONFIGAFTTYPESENCAPSULATIONHEADERTYPE_UDPV4
 				eh.UdpV4 = &aftpb.Afts_NextHop_EncapHeader_UdpV4{DstIp: S(pick(g.R, v4addrs))}
 				if g.chance(0.5) {
-					eh.UdpV4.SrcUdpPort = U(uint64(g.R.Intn(65536)))
+					eh.UdpV4.SrcUdpPort = U(g.num(65536))
 				}
 			case 3:
 				eh.Type = enums.OpenconfigAftTypesEncapsulationHeaderType_OPENCONFIGAFTTYPESENCAPSULATIONHEADERTYPE_GRE
 				eh.Gre = &aftpb.Afts_NextHop_EncapHeader_Gre{SrcIp: S(g.ip())}
 				if g.chance(0.5) {
-					eh.Gre.Ttl = U(uint64(g.R.Intn(256)))
+					eh.Gre.Ttl = U(g.num(256))
 				}
 			default:
 				// header with only a type, or entirely empty
@@ -276,7 +285,7 @@ func (g *Gen) NHGPayload() *aftpb.Afts_NextHopGroup {
 	for i := 0; i < n; i++ {
 		m := &aftpb.Afts_NextHopGroup_NextHopKey{Index: g.S.NHs[perm[i]], NextHop: &aftpb.Afts_NextHopGroup_NextHop{}}
 		if g.chance(0.6) {
-			m.NextHop.Weight = U(uint64(1 + g.R.Intn(64)))
+			m.NextHop.Weight = U(g.num(65))
 		}
 		p.NextHop = append(p.NextHop, m)
 	}
@@ -295,7 +304,7 @@ func (g *Gen) NHGPayload() *aftpb.Afts_NextHopGroup {
 		p.BackupNextHopGroup = U(pick(g.R, append(append([]uint64{}, g.S.NHGs...), 10, 99)))
 	}
 	if g.Rich && g.chance(0.15) {
-		p.Color = U(uint64(g.R.Intn(1000)))
+		p.Color = U(g.num(1000))
 	}
 	return p
 }
@@ -562,7 +571,7 @@ func (g *Gen) Closed(nis []string, density float64) []OpSpec {
 			for i := 0; i < 1+g.R.Intn(len(nhs[ni])); i++ {
 				m := &aftpb.Afts_NextHopGroup_NextHopKey{Index: nhs[ni][perm[i]], NextHop: &aftpb.Afts_NextHopGroup_NextHop{}}
 				if g.chance(0.6) {
-					m.NextHop.Weight = U(uint64(1 + g.R.Intn(8)))
+					m.NextHop.Weight = U(g.num(9))
 				}
 				p.NextHop = append(p.NextHop, m)
 			}
